@@ -35,6 +35,7 @@ def main():
     ap.add_argument('--store', action='store_true')
     ap.add_argument('--tier', default='quick')
     ap.add_argument('--seeds', default='0')
+    ap.add_argument('--checks-only', action='store_true', help='skip the 66 baseline tests and the demo (confirmed when the seed was stored); only run the checks')
     args = ap.parse_args()
     pid = args.pid
     sd = os.path.join(args.worktree, 'seeded')
@@ -63,18 +64,21 @@ def main():
         if p.returncode != 0:
             print('patch does not apply:', p.stdout[-500:], p.stderr[-300:])
             return 2
-        t = sh(['/venv/bin/python', os.path.join(VERIF, 'tools', 'baseline_check.py'), tmp])
-        meta['baseline_66_pass'] = t.returncode == 0
-        print('tests:', t.stdout.strip().splitlines()[-1] if t.stdout.strip() else t.stderr[-200:])
-        env = dict(os.environ, PYTHONPATH=os.path.join(tmp, 'src'))
-        d1 = sh(['/venv/bin/python', demo], env=env, cwd=tmp, timeout=900)
-        env0 = dict(os.environ, PYTHONPATH='/repo/src')
-        d0 = sh(['/venv/bin/python', demo], env=env0, cwd=tmp, timeout=900)
-        meta['demo_exit_with_change'] = d1.returncode
-        meta['demo_exit_without_change'] = d0.returncode
-        print(f'demo: with change rc={d1.returncode}, without rc={d0.returncode}')
-        print('  demo output (with change):', (d1.stdout + d1.stderr).strip()[-400:].replace('\n', ' | '))
-        meta['confirmed'] = bool(meta['baseline_66_pass'] and d1.returncode == 1 and d0.returncode == 0)
+        if args.checks_only:
+            meta['confirmed'] = True  # as recorded when the seed was stored
+        else:
+            t = sh(['/venv/bin/python', os.path.join(VERIF, 'tools', 'baseline_check.py'), tmp])
+            meta['baseline_66_pass'] = t.returncode == 0
+            print('tests:', t.stdout.strip().splitlines()[-1] if t.stdout.strip() else t.stderr[-200:])
+            env = dict(os.environ, PYTHONPATH=os.path.join(tmp, 'src'))
+            d1 = sh(['/venv/bin/python', demo], env=env, cwd=tmp, timeout=900)
+            env0 = dict(os.environ, PYTHONPATH='/repo/src')
+            d0 = sh(['/venv/bin/python', demo], env=env0, cwd=tmp, timeout=900)
+            meta['demo_exit_with_change'] = d1.returncode
+            meta['demo_exit_without_change'] = d0.returncode
+            print(f'demo: with change rc={d1.returncode}, without rc={d0.returncode}')
+            print('  demo output (with change):', (d1.stdout + d1.stderr).strip()[-400:].replace('\n', ' | '))
+            meta['confirmed'] = bool(meta['baseline_66_pass'] and d1.returncode == 1 and d0.returncode == 0)
         runs = {}
         # a stored seed may name environment switches its detection needs (e.g. GV_HUGE=1: the >256 MiB unit of C01,
         # which belongs to the thorough tier, is added to the quick run)
@@ -116,7 +120,7 @@ def main():
         n_runs = len(runs)
         n_hit = sum(1 for v in runs.values() if v['rc'] == 1)
         meta['caught_in_runs'] = f'{n_hit}/{n_runs}'
-        print('RESULT', pid, 'confirmed' if meta['confirmed'] else 'NOT-CONFIRMED', ('CAUGHT by ' + ','.join(meta['caught_by']) if meta['caught'] else 'MISSED'), f'[{n_hit}/{n_runs} runs]' + (' FLAKY' if 0 < n_hit < n_runs else ''))
+        print('RESULT', pid, ('stored' if args.checks_only else 'confirmed') if meta['confirmed'] else 'NOT-CONFIRMED', ('CAUGHT by ' + ','.join(meta['caught_by']) if meta['caught'] else 'MISSED'), f'[{n_hit}/{n_runs} runs]' + (' FLAKY' if 0 < n_hit < n_runs else ''))
         return 0 if meta['caught'] else 1
     finally:
         shutil.rmtree(tmp, ignore_errors=True)
